@@ -1,30 +1,23 @@
 #![allow(dead_code)]
-mod rt;
-mod world;
-mod spec;
-mod interp;
+mod conc;
 mod explore;
-
-use interp::*;
-use spec::*;
+mod families;
+mod interp;
+mod report;
+mod rt;
+mod spec;
+mod world;
 
 fn main() {
 	rt::quiet_panics();
-	let mk = |k1: Kind, k2: Kind| Program {
-		specs: vec![Spec::Coll(k1, vec![Spec::R(0), Spec::R(1)]), Spec::Coll(k2, vec![Spec::R(1), Spec::R(0)])],
-		threads: vec![
-			vec![Step::Acq { target: 0, write: true, flavour: Flavour::Guard, body: Body::TOUCH }],
-			vec![Step::Acq { target: 1, write: true, flavour: Flavour::Guard, body: Body::TOUCH }],
-		],
-		policy: rt::Policy::RP,
-		name: format!("{:?}-{:?}", k1, k2),
-	};
-	for k1 in KINDS {
-		for k2 in KINDS {
-			let p = mk(k1, k2);
-			let t = std::time::Instant::now();
-			let o = explore::explore(&p, &explore::Cfg::default());
-			println!("{} -> {:?} found={:?} mach={:?} in {:?}", p.describe(), o.stats, o.found.iter().map(|f| (&f.violation.key, &f.violation.detail, &f.schedule)).collect::<Vec<_>>(), o.machinery, t.elapsed());
+	let args: Vec<String> = std::env::args().collect();
+	let cmd = args.get(1).map(|s| s.as_str()).unwrap_or("");
+	let tier = report::tier_from_args(&args);
+	match cmd {
+		"C01" | "C02" | "C05" => conc::check_core(cmd, &tier),
+		_ => {
+			eprintln!("usage: hlverif <C01..C17|replay> <quick|thorough>");
+			std::process::exit(2);
 		}
 	}
 }
